@@ -40,6 +40,12 @@ present = any(re.search(r"^\s*(var\s+)?ErrRscpInvalidDataType\s*(error\s*)?=", o
               for f in os.listdir(os.path.join(repo, "rscp")) if f.endswith(".go") and not f.endswith("_test.go"))
 ov["Replace"][os.path.join(repo, "rscp", "zz_verif_sentinel.go")] = os.path.join(
     root, "harness", "overlay", "zz_verif_sentinel_present.go" if present else "zz_verif_sentinel_absent.go")
+try:
+    has_flag = re.search(r"^\s*isAuthenticated\s+bool", open(os.path.join(repo, "rscp", "client.go"), errors="replace").read(), re.M)
+except OSError:
+    has_flag = None
+ov["Replace"][os.path.join(repo, "rscp", "zz_verif_state.go")] = os.path.join(
+    root, "harness", "overlay", "zz_verif_state_present.go" if has_flag else "zz_verif_state_absent.go")
 json.dump(ov, open(os.path.join(root, ".build", "overlay.json"), "w"))
 PY
 (cd harness && go build -tags verif -overlay ../.build/overlay.json -o ../.build/verifharness .)
